@@ -321,7 +321,16 @@ class Unit:
                         if sit.kind == 'impl' and re.match(r'impl\s*(<[^>]*>)?\s*From<', sit.header):
                             from_items.append(sit)
                         else:
-                            keep.append(sub.text[sit.start:sit.end])
+                            txt = sub.text[sit.start:sit.end]
+                            if sit.kind == 'impl':
+                                # contract injection: spec items placed at the top of a generated impl block
+                                for key, val in kw.items():
+                                    if key.startswith('inject_') and re.search(r'\b' + key[len('inject_'):] + r'\b', sit.header):
+                                        ob = sit.body_open - sit.start
+                                        inj = open(os.path.join(self.root, val)).read()
+                                        txt = txt[:ob + 1] + '\n' + inj + txt[ob + 1:]
+                                        self.rw.hit('W0.contract_injected')
+                            keep.append(txt)
                 text = '\n'.join(keep)
                 if text.strip():
                     t = self.clean_item_text(text, kw)
